@@ -333,7 +333,7 @@ theorem split_last {α} (l : List α) (z : α) (hz : l[l.length - 1]? = some z) 
 theorem DMid_remove1_hole {d : DynR} (h : DMid d) (j : Nat) (sl : Slot) (hj : d.slots[j]? = some sl)
     (hreq : sl.req = none) (hfin : sl.fin = false)
     (hlater : ∀ i s', j < i → d.slots[i]? = some s' → s'.req ≠ none ∧ s'.fin = false) :
-    DMid (d.remove1 j) ∧ (d.remove1 j).refs.Perm d.refs ∧
+    DMid (d.remove1 j) ∧ (d.remove1 j).refs.Perm d.refs ∧ (d.remove1 j).slots.length + 1 = d.slots.length ∧
     (∀ i s', (d.remove1 j).slots[i]? = some s' → (i = j ∧ s'.req ≠ none ∧ s'.fin = false) ∨ (i ≠ j ∧ d.slots[i]? = some s')) ∧
     (d.remove1 j).base = d.base ∧ (d.remove1 j).cap = d.cap ∧ (d.remove1 j).quota = d.quota ∧
     (d.remove1 j).sendq = d.sendq ∧ (d.remove1 j).recvq = d.recvq := by
@@ -369,7 +369,7 @@ theorem DMid_remove1_hole {d : DynR} (h : DMid d) (j : Nat) (sl : Slot) (hj : d.
     have mcnt : m.cntRecv = z.cntRecv := by simp [Slot.cntRecv, m3, m4, m5]
     have hperm := set_dropLast_perm d.slots j sl m (by omega) hj
     have hsplit := split_last d.slots z hz
-    refine ⟨⟨?_, ?_, ?_, h.nrecv_le, h.sendq_kind, h.recvq_kind⟩, ?_, ?_, rfl, rfl, rfl, rfl, rfl⟩
+    refine ⟨⟨?_, ?_, ?_, h.nrecv_le, h.sendq_kind, h.recvq_kind⟩, ?_, by show ((d.slots.set j m).dropLast).length + 1 = _; simp; omega, ?_, rfl, rfl, rfl, rfl, rfl⟩
     · show ((d.slots.set j m).dropLast).length ≤ d.cap
       have := h.len_le
       simp; omega
@@ -430,7 +430,7 @@ theorem DMid_remove1_hole {d : DynR} (h : DMid d) (j : Nat) (sl : Slot) (hj : d.
   · rw [if_neg hl]
     have hjeq : d.slots.length - 1 = j := by omega
     have hsplit := split_last d.slots sl (by rw [hjeq]; exact hj)
-    refine ⟨⟨?_, ?_, ?_, h.nrecv_le, h.sendq_kind, h.recvq_kind⟩, ?_, ?_, rfl, rfl, rfl, rfl, rfl⟩
+    refine ⟨⟨?_, ?_, ?_, h.nrecv_le, h.sendq_kind, h.recvq_kind⟩, ?_, by show (d.slots.dropLast).length + 1 = _; simp; omega, ?_, rfl, rfl, rfl, rfl, rfl⟩
     · show (d.slots.dropLast).length ≤ d.cap
       have := h.len_le
       simp; omega
@@ -459,10 +459,11 @@ theorem DMid_remove1_hole {d : DynR} (h : DMid d) (j : Nat) (sl : Slot) (hj : d.
         right; exact ⟨by omega, hi'⟩
       · simp [hil] at hi'
 
-theorem remove1_noop {d : DynR} (j : Nat) (h : ∀ sl, d.slots[j]? = some sl → sl.req ≠ none) : d.remove1 j = d := by
+theorem remove1_noop {d : DynR} (j : Nat) (hjl : j < d.slots.length) (h : ∀ sl, d.slots[j]? = some sl → sl.req ≠ none) :
+    d.remove1 j = d := by
   unfold DynR.remove1
   cases hj : d.slots[j]? with
-  | none => rfl
+  | none => rw [List.getElem?_eq_getElem hjl] at hj; cases hj
   | some sl =>
     have h1 := h sl hj
     have h2 : sl.req.isSome = true := by
@@ -474,32 +475,35 @@ theorem remove1_noop {d : DynR} (j : Nat) (h : ∀ sl, d.slots[j]? = some sl →
 /-- The whole removal loop (completed indices visited from the last to the first) closes every hole. -/
 theorem DInv_removeAll : ∀ (js : List Nat) (d : DynR), DMid d → (∀ sl, sl ∈ d.slots → sl.fin = false) →
     js.Pairwise (fun a b => a > b) → (∀ i sl, d.slots[i]? = some sl → sl.req = none → i ∈ js) →
+    (∀ j, j ∈ js → j < d.slots.length) →
     DInv (d.removeAll js) ∧ (d.removeAll js).refs.Perm d.refs ∧
     (d.removeAll js).base = d.base ∧ (d.removeAll js).cap = d.cap ∧ (d.removeAll js).quota = d.quota ∧
     (d.removeAll js).sendq = d.sendq ∧ (d.removeAll js).recvq = d.recvq := by
   intro js
   induction js with
   | nil =>
-    intro d h _ _ hholes
+    intro d h _ _ hholes _
     refine ⟨⟨h, ?_⟩, List.Perm.refl _, rfl, rfl, rfl, rfl, rfl⟩
     intro sl hsl hreq
     obtain ⟨i, hi⟩ := List.getElem?_of_mem hsl
     exact absurd (hholes i sl hi hreq) (by simp)
   | cons j rest ih =>
-    intro d h hfin hpw hholes
+    intro d h hfin hpw hholes hlen
     rw [List.pairwise_cons] at hpw
+    have hjlen : j < d.slots.length := hlen j (by simp)
     by_cases hnoop : ∀ sl, d.slots[j]? = some sl → sl.req ≠ none
     · show DInv ((d.remove1 j).removeAll rest) ∧ ((d.remove1 j).removeAll rest).refs.Perm d.refs ∧
         ((d.remove1 j).removeAll rest).base = d.base ∧ ((d.remove1 j).removeAll rest).cap = d.cap ∧
         ((d.remove1 j).removeAll rest).quota = d.quota ∧ ((d.remove1 j).removeAll rest).sendq = d.sendq ∧
         ((d.remove1 j).removeAll rest).recvq = d.recvq
-      rw [remove1_noop j hnoop]
+      rw [remove1_noop j hjlen hnoop]
       apply ih d h hfin hpw.2
-      intro i sl hi hreq
-      have := hholes i sl hi hreq
-      rcases List.mem_cons.mp this with e | e
-      · subst e; exact absurd hreq (hnoop sl hi)
-      · exact e
+      · intro i sl hi hreq
+        have := hholes i sl hi hreq
+        rcases List.mem_cons.mp this with e | e
+        · subst e; exact absurd hreq (hnoop sl hi)
+        · exact e
+      · intro j' hj'; exact hlen j' (by simp [hj'])
     · have : ∃ sl, d.slots[j]? = some sl ∧ sl.req = none := by
         apply Classical.byContradiction
         intro hne
@@ -515,7 +519,7 @@ theorem DInv_removeAll : ∀ (js : List Nat) (d : DynR), DMid d → (∀ sl, sl 
         rcases List.mem_cons.mp this with e | e
         · omega
         · have := hpw.1 i e; omega
-      obtain ⟨g1, g2, g3, g4, g5, g6, g7, g8⟩ :=
+      obtain ⟨g1, g2, glen, g3, g4, g5, g6, g7, g8⟩ :=
         DMid_remove1_hole h j sl hj hreq (hfin sl (List.mem_of_getElem? hj)) hlater
       have hfin' : ∀ s', s' ∈ (d.remove1 j).slots → s'.fin = false := by
         intro s' hs'
@@ -531,7 +535,11 @@ theorem DInv_removeAll : ∀ (js : List Nat) (d : DynR), DMid d → (∀ sl, sl 
           rcases List.mem_cons.mp this with e | e
           · exact absurd e hne
           · exact e
-      obtain ⟨k1, k2, k3, k4, k5, k6, k7⟩ := ih (d.remove1 j) g1 hfin' hpw.2 hholes'
+      have hlen' : ∀ j', j' ∈ rest → j' < (d.remove1 j).slots.length := by
+        intro j' hj'
+        have := hpw.1 j' hj'
+        omega
+      obtain ⟨k1, k2, k3, k4, k5, k6, k7⟩ := ih (d.remove1 j) g1 hfin' hpw.2 hholes' hlen'
       show DInv ((d.remove1 j).removeAll rest) ∧ ((d.remove1 j).removeAll rest).refs.Perm d.refs ∧
         ((d.remove1 j).removeAll rest).base = d.base ∧ ((d.remove1 j).removeAll rest).cap = d.cap ∧
         ((d.remove1 j).removeAll rest).quota = d.quota ∧ ((d.remove1 j).removeAll rest).sendq = d.sendq ∧
